@@ -85,6 +85,11 @@ def _states_base(tier, seed):
         if sc == "FFNS3" and h == "light" and extra:
             continue
         out.append(dict({"t": "cell", "kind": k, "heavyness": h, "process": p, "scheme": sc, "pto": 2, "Q2": 30.0, "projectile": proj}, **extra))
+    # combinations: DIS order different from the evolution order (the scale-variation manager follows the DIS order), TMC on (the corrections act key by key), asymptotic schemes
+    for (k, p), sc, (pto, ptodis) in itertools.product([("F2", "NC"), ("F3", "CC"), ("FL", "NC")], ["ZM-VFNS", "FFNS3", "FFN03"], [(1, 2), (2, 1), (0, 2)]):
+        out.append({"t": "cell", "kind": k, "heavyness": "total", "process": p, "scheme": sc, "pto": pto, "ptodis": ptodis, "Q2": 30.0})
+    for (k, p, proj), sc in itertools.product([("F2", "NC", "positron"), ("F3", "CC", "antineutrino")], ["ZM-VFNS", "FFNS3"]):
+        out.append({"t": "cell", "kind": k, "heavyness": "total", "process": p, "scheme": sc, "pto": 2, "Q2": 30.0, "projectile": proj, "target": "iron", "tmc": 1, "obscard": {"PolarizationDIS": 0.7}})
     for nf in (3, 4, 5, 6):
         out.append({"t": "moments", "nf": nf})
     # several n_f regions inside ONE runner (the splitting-operator cache of the scale-variation manager is shared by all points and observables)
@@ -151,7 +156,7 @@ def _check_point(st, T, nf, x, desc, grid="G6"):
         preds[(3, 0, 1, j)] = (-b1 * g((1, 0, 0, j)) - 2 * b0 * g((2, 0, 0, j)), [b1 * np.abs(g((1, 0, 0, j))), 2 * b0 * np.abs(g((2, 0, 0, j)))])
         preds[(3, 0, 2, j)] = (b0 * b0 * g((1, 0, 0, j)), [b0 * b0 * np.abs(g((1, 0, 0, j)))])
     for key, (pred, terms) in preds.items():
-        if key[0] > st["pto"]:
+        if key[0] > st.get("ptodis", st["pto"]):  # the DIS order decides which keys exist
             continue
         if key not in T:
             if np.any(pred != 0):
@@ -171,7 +176,7 @@ def _check_point(st, T, nf, x, desc, grid="G6"):
     c0 = ref_rge.strip_heavy(g((0, 0, 0, 0)), nf)
     c1 = ref_rge.strip_heavy(g((1, 0, 0, 0)), nf)
     fpreds = {(1, 0, 0, 1): ops["P0"].apply(c0)}
-    if st["pto"] >= 2:
+    if st.get("ptodis", st["pto"]) >= 2:
         fpreds[(2, 0, 0, 1)] = ops["P0"].apply(c1) + ops["P1"].apply(c0)
         fpreds[(2, 0, 0, 2)] = 0.5 * (ops["P0P0"].apply(c0) + b0 * ops["P0"].apply(c0))
     absops = None
@@ -231,7 +236,7 @@ def execute(st):
     obs = {name: [cards.kin(x, st["Q2"]) for x in xs_]}
     runs = {}
     for ren, fact in ((True, True), (True, False), (False, True), (False, False)):
-        c = {k: st[k] for k in ("process", "scheme", "pto", "projectile", "target", "obscard") if k in st}
+        c = {k: st[k] for k in ("process", "scheme", "pto", "ptodis", "projectile", "target", "obscard", "tmc") if k in st}
         c["grid"] = st.get("grid", "G6")
         c["theory"] = dict(st.get("theory", {}), RenScaleVar=ren, FactScaleVar=fact)
         out, status = rel.try_run(c, obs)
